@@ -599,6 +599,14 @@ def _add_private_bases(rng, names, pkg: Pkg) -> None:
                     d.cattrs.append(Attr(attr, "int", "3"))
                     if camel != attr:
                         base.methods.append(Fn(camel, [], "int", role="inst"))
+                if rng.random() < 0.5:
+                    # a public-named class nested in the private base (it is shown in every public subclass) with
+                    # private attributes and a private method of its own
+                    inner = Cls(names.fresh("Settings", cls=True))
+                    inner.cattrs = [Attr(names.fresh("token", private=True), "str", '"t"'), Attr(names.fresh("shown"), "int", "1")]
+                    inner.iattrs = [Attr(names.fresh("cache", private=True), "int", "0")]
+                    inner.methods = [Fn(names.fresh("secret", private=True), [], "int", role="inst"), Fn(names.fresh("visible"), [], "int", role="inst")]
+                    base.nested.append(inner)
                 d.bases.append(base.name)
                 m.decls.insert(m.decls.index(d), base)
 
